@@ -36,6 +36,8 @@ def qbytes_mm(activations: torch.Tensor, weights: torch.Tensor, output_scales: t
 def qbytes_int_mm(activations: torch.Tensor, weights: torch.Tensor, output_scales: torch.Tensor) -> torch.Tensor:
     in_features = activations.shape[-1]
     out_features = weights.shape[0]
+    # torch._int_mm reads its first operand as a dense matrix: materialize expanded (stride 0) activations
+    activations = activations.contiguous()
     # torch._int_mm works on transposed weights, i.e (in_features, out_features)
     weights = weights.t()
     if activations.ndim == 2:
@@ -53,6 +55,8 @@ def qbytes_int_mm(activations: torch.Tensor, weights: torch.Tensor, output_scale
 def qbytes_int8pack_mm(activations: torch.Tensor, weights: torch.Tensor, output_scales: torch.Tensor) -> torch.Tensor:
     # torch._weight_int8pack_mm expects a vector of scales
     output_scales = output_scales.flatten()
+    # and activations that are contiguous on their last dimension
+    activations = activations.contiguous()
     if activations.ndim == 2:
         return torch._weight_int8pack_mm(activations, weights, output_scales)
     else:
